@@ -181,6 +181,8 @@ theorem solveCase_effect {s s' : St} {ps : List (Nat × List Comp)} {i : Nat} {k
     | group => simp at h
     | node m v => simp at h
     | prop p => simp at h
+    | imp nd => simp at h
+    | unit b => simp at h
   | true =>
     obtain ⟨b, bs, e1, e2, e3, e4⟩ := closeFor_true (i := i) (p := (fullName ps).dropLast) hs (by rw [hr])
     rw [hr] at e4
@@ -216,6 +218,8 @@ theorem solveCase_effect {s s' : St} {ps : List (Nat × List Comp)} {i : Nat} {k
     | group => simp at h
     | node m v => simp at h
     | prop p => simp at h
+    | imp nd => simp at h
+    | unit b => simp at h
 
 /-! ## the specification side -/
 
@@ -332,6 +336,12 @@ theorem inv_step {before : List Line} {s s' : St} {l : Line} {o : List Eff} (hin
   | prop p =>
     simp only [step, Except.ok.injEq, Prod.mk.injEq] at h
     exact plain s' (by rw [← h.1]) (fun k _ => by rw [← h.1]) rfl
+  | unit b =>
+    simp only [step, Except.ok.injEq, Prod.mk.injEq] at h
+    exact plain s' (by rw [← h.1]) (fun k _ => by rw [← h.1]) rfl
+  | imp nd =>
+    simp only [step, Except.ok.injEq, Prod.mk.injEq] at h
+    exact plain s' (by rw [← h.1]) (fun k hk => by rw [← h.1]; exact popGE_register_le (by omega) _ _) rfl
   | node m v =>
     simp only [step] at h
     by_cases hf : falseCase (closeGE i s.state) = true
@@ -395,6 +405,8 @@ theorem step_misplaced {before : List Line} {s : St} {l : Line} (hinv : Inv befo
     | group => simp [misplacedAt] at hm
     | node m v => simp [misplacedAt] at hm
     | prop p => simp [misplacedAt] at hm
+    | imp nd => simp [misplacedAt] at hm
+    | unit b => simp [misplacedAt] at hm
     | case c =>
       simp only [misplacedAt, beq_iff_eq] at hm
       rw [hm] at hag
@@ -469,5 +481,10 @@ theorem run_misplaced {before ls : List Line} {s : St} (hinv : Inv before s)
       | inr h =>
         have := ih (inv_step hinv hstep) h
         simp [run, hstep, this]
+
+theorem popGE_zero (ps : List (Nat × List Comp)) : popGE 0 ps = [] := by
+  induction ps with
+  | nil => rfl
+  | cons p ps ih => simp [popGE, ih]
 
 end SciVerif.C15
